@@ -306,7 +306,7 @@ impl Prop for C07 {
                 out.violate("C07", class, format!("[{}] code outside the verbatim regions is not canonical: {} {} (…{:?}…)", cfg.short(), is.rule, is.detail, excerpt(&output, is.at, 40)), &input, Some(&cfg));
             }
             let _ = GK::Ident;
-            if k == 0 && idx < 2 {
+            if out.sample.is_none() && idx < 32 {
                 out.sample = Some(json!({"config": cfg.short(), "regions": regs.iter().map(|r| short(&input[r.start..r.end], 120)).collect::<Vec<_>>(), "input": short(&input, 240)}));
             }
         }
